@@ -53,7 +53,7 @@ class Family:
 
     def __init__(self, name, harness, units=(), stubs=('msgs_stub.c',), defines=(), debug=None,
                  unwind=8, unwindset=(), flags=(), backend='cadical', fallback=('kissat',),
-                 restrict=None, real_msgs=False, note='', cap=None, leak=False, no_overflow_fns=()):
+                 restrict=None, note='', cap=None, leak=False, loopspec=()):
         self.name, self.harness = name, harness
         self.units = list(units)
         self.stubs = list(stubs)
@@ -65,6 +65,7 @@ class Family:
         self.note = note
         self.cap = cap
         self.leak = leak
+        self.loopspec = list(loopspec)
         self.obls = []
         self.gb = None
         self.build_error = None
@@ -165,6 +166,8 @@ def build_family(fam, workdir):
         gb = apply_restrict(fam, gb, fdir)
     fam.gb = gb
     fam.fdir = fdir
+    if fam.loopspec or any('loopspec' in o.kw for o in fam.obls):
+        resolve_loops(fam)
 
 
 def apply_restrict(fam, gb, fdir):
@@ -195,6 +198,53 @@ def apply_restrict(fam, gb, fdir):
     return outgb
 
 
+def resolve_loops(fam):
+    """Map (function, source-line regex) -> loop ids, from goto-instrument --show-loops on the
+    binary just built (never from remembered ordinals; DESIGN 3.5)."""
+    rc, out = sh(['goto-instrument', '--show-loops', fam.gb], timeout=300)
+    loops = []          # (loopid, function, file, line)
+    cur = None
+    for l in out.splitlines():
+        m = re.match(r'Loop (\S+)\.(\d+):', l)
+        if m:
+            cur = (m.group(1) + '.' + m.group(2), m.group(1))
+            continue
+        m = re.search(r'file (\S+) line (\d+)', l)
+        if m and cur:
+            loops.append((cur[0], cur[1], m.group(1), int(m.group(2))))
+            cur = None
+    fam.loops = loops
+    fam._src_cache = {}
+
+
+def loop_ids(fam, function, regex):
+    ids = []
+    for lid, fn, path, line in fam.loops:
+        if fn != function:
+            continue
+        if path not in fam._src_cache:
+            try:
+                fam._src_cache[path] = open(path, errors='replace').read().splitlines()
+            except Exception:
+                fam._src_cache[path] = []
+        src = fam._src_cache[path]
+        text = src[line - 1] if 0 < line <= len(src) else ''
+        if re.search(regex, text):
+            ids.append(lid)
+    return ids
+
+
+def loopspec_args(fam, spec):
+    args = []
+    for function, regex, bound in spec:
+        ids = loop_ids(fam, function, regex)
+        if not ids:
+            raise RuntimeError('loopspec: no loop in %s matches /%s/' % (function, regex))
+        for lid in ids:
+            args += ['--unwindset', '%s:%d' % (lid, bound)]
+    return args
+
+
 # ---------------------------------------------------------------- running one query
 
 def label_of(prop):
@@ -210,7 +260,7 @@ def label_of(prop):
     if cls.startswith('precondition_instance'):
         return 'mem:' + fn + ':precondition'
     if cls == 'no-body':
-        return 'no-body:' + fn
+        return 'no-body:' + (parts[2] if len(parts) > 2 else fn)
     return 'mem:' + fn + ':' + cls
 
 
@@ -238,7 +288,7 @@ def parse_cbmc_json(text):
 def trace_inputs(prop):
     vals = []
     for st in prop.get('trace', []) or []:
-        if st.get('stepType') == 'assignment' and st.get('lhs') == 'verif_in_v':
+        if st.get('stepType') == 'assignment' and st.get('lhs') == 'verif_in_v' and st.get('sourceLocation', {}).get('function') == 'V_RANGE':
             v = st.get('value', {})
             d = v.get('data')
             try:
@@ -256,6 +306,9 @@ def run_query(o, tier, backend):
     cmd = ['cbmc', fam.gb, '--function', o.entry, '--unwind', str(unwind)] + BASE_FLAGS
     for u in list(fam.unwindset) + list(o.kw.get('unwindset', ())):
         cmd += ['--unwindset', u]
+    spec = list(fam.loopspec) + list(o.kw.get('loopspec', ()))
+    if spec:
+        cmd += loopspec_args(fam, spec)
     cmd += fam.flags + list(o.kw.get('flags', ()))
     if fam.leak:
         cmd += ['--memory-leak-check']
@@ -307,13 +360,18 @@ def run_query(o, tier, backend):
     o.nprops = len(results)
     if witness is None:
         return 'vacuous', 'harness has no witness assertion'
+    if witness not in ('FAILURE', 'SUCCESS') and not fails:
+        return 'inconclusive', 'solver gave no verdict (witness status %s)' % witness
     if witness != 'FAILURE' and not any(l.startswith('unwind:') for l, _ in fails):
         return 'vacuous', 'witness assertion not reachable (status %s): assumptions unsatisfiable or path cut' % witness
-    if unknown:
-        return 'inconclusive', 'undecided properties: ' + ', '.join(unknown[:5])
     if not fails:
+        if unknown:
+            return 'inconclusive', 'undecided properties: ' + ', '.join(unknown[:5])
         return 'discharged', ''
     o.labels = sorted(set(l for l, _ in fails))
+    nb = [l for l in o.labels if l.startswith('no-body:')]
+    if nb:
+        return 'inconclusive', 'no CBMC model for called function(s): ' + ', '.join(nb)
     # keep the shortest trace's inputs for replay; prefer harness-level labels
     best = None
     for lab, r in fails:
@@ -332,7 +390,10 @@ def decide(o, tier):
     order = [o.kw.get('backend', fam.backend)] + [b for b in fam.fallback if b != o.kw.get('backend', fam.backend)]
     st, detail = None, ''
     for be in order:
-        st, detail = run_query(o, tier, be)
+        try:
+            st, detail = run_query(o, tier, be)
+        except Exception as e:
+            st, detail = 'inconclusive', 'driver error: %r' % (e,)
         if st in ('discharged', 'failed', 'vacuous'):
             break
     o.status, o.detail = st, detail
@@ -403,7 +464,7 @@ def native_replay(fam, entry, inputs, workdir, leak=False):
     open(inp, 'w').write(' '.join(str(v) for v in inputs) + '\n')
     runs = []
     reproduced = False
-    for fill in ('0xaa', '0x00', '0xff'):
+    for fill in ('170', '0', '255'):
         env = dict(os.environ)
         env['ASAN_OPTIONS'] = 'detect_leaks=%d:malloc_fill_byte=%s:max_malloc_fill_size=1048576:abort_on_error=0:exitcode=23:allocator_may_return_null=1' % (1 if leak else 0, fill)
         env['UBSAN_OPTIONS'] = 'print_stacktrace=0:halt_on_error=1:exitcode=24'
